@@ -357,7 +357,7 @@ def run_suite(name, tier, seed, workdir, replay_lines=None):
     errs = []
     for i, out, p in procs:
         try:
-            so, se = p.communicate(timeout=cfg.get('timeout', 3000))
+            so, se = p.communicate(timeout=cfg.get('timeout', 3000 if tier == 'thorough' else 900))
         except subprocess.TimeoutExpired:
             p.kill()
             so, se = p.communicate()
@@ -374,7 +374,7 @@ def run_suite(name, tier, seed, workdir, replay_lines=None):
                                                           stdin=fin, stdout=fout, stderr=subprocess.PIPE)))
     for i, mo, fin, fout, p in dprocs:
         try:
-            _, se = p.communicate(timeout=cfg.get('timeout', 3000))
+            _, se = p.communicate(timeout=cfg.get('timeout', 3000 if tier == 'thorough' else 900))
         except subprocess.TimeoutExpired:
             p.kill()
             _, se = p.communicate()
